@@ -27,7 +27,7 @@ INFO = {
         "harness literals: 53-bit float mantissas enter Coq as primitive Uint63 literals converted by Uint63.to_Z (harness-side only; no theorem depends on it)",
     ],
     "assumptions": [
-        "every action is available in every state (the vectorised filter reads transition_matrix, which has zero rows for unavailable actions)",
+        "state-dependent action sets: a (belief, action) pair is compared only when the action is offered in every state of the belief's support (otherwise the action cannot be taken there; msdm's vectorised filter reads transition_matrix, which has zero rows for actions a state does not offer); the model's transition rows of (state, action) pairs that are not offered are the generator's rows, which such pairs never use (multiplied by b(s) = 0)",
         "POMDP arrays of the model are built from the generator's definition in the state/action/observation order msdm reports",
     ],
 }
@@ -90,7 +90,7 @@ def _labels(rng, p):
 def gen_case(rng, tier):
     explicit = rng.random() < .3
     single = rng.random() < .04
-    p = gen_pomdp.gen_pomdp(rng, nmax=1 if single else 5, min_states=1 if single else 2, tiny=.4, near_twin=.6, ghosts=.3,
+    p = gen_pomdp.gen_pomdp(rng, nmax=1 if single else 5, min_states=1 if single else 2, tiny=.4, near_twin=.6, ghosts=.3, state_actions=.3,
                             big_rewards=.1, force_reachable=not (explicit and rng.random() < .8))
     beliefs = gen_pomdp.gen_beliefs(rng, p, n_grid=2, tiny=True)
     for be in beliefs:          # how the belief is handed to msdm
@@ -153,7 +153,9 @@ def nonfinite(x):
 def model_arrays(case, res):
     p = case["pomdp"]
     sl, al, ol = res["state_list"], res["action_list"], res["observation_list"]
-    P, R, av, absf, ini = gen_mdp.arrays(p, sl, al)
+    # transition rows of EVERY (s, a), offered or not: rows of actions a state does not offer are never used by
+    # msdm for an admissible (belief, action) pair and are multiplied by b(s) = 0 in the model
+    P, R, absf, ini = gen_pomdp.full_arrays(p, sl, al)
     Ob = gen_pomdp.obs_arrays(p, al, sl, ol)
     return P, R, absf, ini, Ob
 
@@ -168,12 +170,12 @@ def case_term(case, res):
     for be, bo in zip(case["beliefs"], res["beliefs"]):
         bl = qlist([F(be["b"][s]) for s in sl])
         aterms = []
-        for ai, r in enumerate(bo["actions"]):
+        for r in bo["actions"]:
             aterms.append("cba m tol %s %s %s %s %s %s %s %s %s" % (
-                bl, nat(ai), coqlist(dlit(d) for d in r["est_dict"]), fqmat(r["est_vec"]),
+                bl, nat(r["ai"]), coqlist(dlit(d) for d in r["est_dict"]), fqmat(r["est_vec"]),
                 fqmat(r["next_agentstate"]), dlit(r["pred_dict"]), fqlist(r["pred_vec"]),
                 bnlit(r["belief_next"]), fq(r["belief_reward"])))
-        bterms.append("(cb m %s %s, %s)" % (bl, cb_(bo["is_absorbing"]), coqlist(aterms)))
+        bterms.append("(cb m %s %s, %s)" % (bl, cb_(bo["is_absorbing"]), coqlist(aterms) if aterms else "(@nil (list bool))"))
     return "let m := %s in (wf m, ome m %s, %s)" % (mk, qten(res["observation_matrix"]), coqlist(bterms))
 
 
@@ -187,13 +189,14 @@ def close_abs(x, y):
     return abs(vlib.frac(x) - y) <= OTOL * (1 + abs(y))
 
 
-def oracle_ba(case, res, bi, ai, only=None):
-    """first failing property clause for belief bi, action index ai (None if all hold)"""
+def oracle_ba(case, res, bi, j, only=None):
+    """first failing property clause for belief bi and its j-th evaluated action (None if all hold)"""
     sl, al, ol = res["state_list"], res["action_list"], res["observation_list"]
     P, R, absf, ini, Ob = model_arrays(case, res)
     n, nO = len(sl), len(ol)
     b = [F(case["beliefs"][bi]["b"][s]) for s in sl]
-    r = res["beliefs"][bi]["actions"][ai]
+    r = res["beliefs"][bi]["actions"][j]
+    ai = r["ai"]
     pred = [sum(b[s] * P[s][ai][ns] for s in range(n)) for ns in range(n)]
     WZ = [gen_pomdp.joint_exact(P, Ob, b, ai, o) for o in range(nO + 1)]
     post = [([w / Z for w in W] if Z > 0 else None) for W, Z in WZ]
@@ -319,10 +322,22 @@ def _run(ctx, tier):
     terms, meta = [], []
     feats, cnt = {}, {k: 0 for k in ("bao_triples", "impossible_observations", "rare_observations_Z_le_1e-8", "posteriors_with_tiny_component", "posteriors_with_zero_and_mixed_support",
                                      "belief_next_with_merged_posteriors", "belief_next_with_several_successors",
-                                     "absorbing_beliefs", "beliefs", "belief_action_checks")}
+                                     "absorbing_beliefs", "beliefs", "belief_action_checks",
+                                     "belief_action_pairs_skipped_action_not_offered_on_support")}
     kinds = {}
     for i, (case, res) in enumerate(zip(cases, impl)):
         err = has_error(res)
+        if err and isinstance(res.get("observation_matrix"), list) and isinstance(res.get("observation_list"), list):
+            # a raise downstream (e.g. the predictive distribution's own assert) is often the consequence of a
+            # wrong observation tensor: compare it exactly here, the Coq comparison is skipped for this case
+            try:
+                Ob_ = model_arrays(case, res)[4]
+                if [[[vlib.frac(x) for x in r] for r in m] for m in res["observation_matrix"]] != Ob_:
+                    ctx.violation("C07:observation_matrix:differs-from-observation_dist",
+                                  {"case": case, "observation_matrix": res["observation_matrix"],
+                                   "clause": "observation_matrix[a, ns, o] is not observation_dist(a, ns).prob(o)"}, found=True)
+            except Exception:
+                pass
         if err:
             # which quantity raised?  (inside the quantifier nothing may raise: the predictive
             # distribution's own  assert isclose(sum, 1)  is part of the property)
@@ -378,9 +393,11 @@ def _run(ctx, tier):
             kinds[be["kind"]] = kinds.get(be["kind"], 0) + 1
             cnt["beliefs"] += 1
             cnt["absorbing_beliefs"] += int(bool(res["beliefs"][bi]["is_absorbing"]))
-            for ai in range(p["nA"]):
+            for r in res["beliefs"][bi]["actions"]:
                 cnt["belief_action_checks"] += 1
-                stats_ba(case, res, bi, ai, cnt)
+                stats_ba(case, res, bi, r["ai"], cnt)
+            cnt["belief_action_pairs_skipped_action_not_offered_on_support"] += \
+                len(res["action_list"]) - len(res["beliefs"][bi]["actions"])
     vals = ctx.coq(PRE, terms, shard=max(1, -(-len(terms) // (4 * ctx.jobs))) if terms else 1)
     distinct = set()
     nevals = 0
@@ -413,7 +430,8 @@ def _run(ctx, tier):
                                "all_mass_on_absorbing": exact,
                                "clause": "a belief is absorbing exactly when all its mass is on absorbing states"},
                               found=(exact != bool(res["beliefs"][bi]["is_absorbing"])))
-            for ai, flags in enumerate(ares):
+            for j, flags in enumerate(ares):
+                ai = res["beliefs"][bi]["actions"][j]["ai"]
                 nevals += 1
                 failed = [c for c, okv in zip(CLAUSES, flags) if not okv]
                 if "belief_next_count" in failed and (not be["dyadic"] or case["pomdp"].get("obs_tiny")
@@ -422,9 +440,9 @@ def _run(ctx, tier):
                     failed.remove("belief_next_count")
                 if not failed:
                     continue
-                why = oracle_ba(case, res, bi, ai)
+                why = oracle_ba(case, res, bi, j)
                 detail = {"case": case, "belief_index": bi, "belief": be, "action_index": ai,
-                          "failed_comparisons": failed, "impl": res["beliefs"][bi]["actions"][ai]}
+                          "failed_comparisons": failed, "impl": res["beliefs"][bi]["actions"][j]}
                 if why:
                     detail["failing_clause"] = why
                     ctx.violation("C07:%s:%s" % (failed[0], why["clause"]), detail, found=True)
